@@ -47,7 +47,9 @@ def run(c):
             return s
         if node['k'] == 'case':
             s = T()
-            s.nid = node['id']
+            # test ids need not be unique (the same TestCase class loaded into several suites): without --require-unique
+            # every instance is selected on its own merits
+            s.nid = node['id'] % 2 if c.get('dup_ids') else node['id']
             ids[id(s)] = node['id']
         else:
             s = unittest.TestSuite([build(k) for k in node['kids']])
